@@ -43,7 +43,8 @@ Record qstep := mkStep {
 
 Inductive c17case :=
 | Quiescent (cfg r0 : path) (ino0 : N) (steps : list qstep)
-| Racing (hist : list opkind) (final : read_result) (view : option N) (lasterr dup ok : bool).
+| Racing (hist : list opkind) (final : read_result) (view : option N) (lasterr dup ok : bool)
+| Window (points : list (read_result * option N * bool)) (dup ok : bool).
 
 (* the harness's content table: ids below 100 decode to themselves *)
 Definition decode (c : content) : option value := if c <? 100 then Some c else None.
@@ -196,6 +197,20 @@ Definition first_step (r0 : path) : qstep :=
 (* verdict codes: 0 pass; 1 implementation <> model though the property holds;
    3 the property fails; 11 the property fails, implementation = model, and the
    model has lost a directory watch (class 1: DESIGN finding 12, repaired) *)
+(* the property's oracle at an idle point: converged to decode(final); or a
+   good value kept and the error reported; or (file absent) a good value kept *)
+Definition converged (final : read_result) (v : option N) (lasterr : bool) : bool :=
+  let good := match v with Some x => x <? 100 | None => false end in
+  match final with
+  | Content c =>
+      match decode c with
+      | Some x => optN_eqb v (Some x)
+      | None => lasterr && good
+      end
+  | IOErr => lasterr && good
+  | NotExist => good
+  end.
+
 Definition check (c : c17case) : N :=
   match c with
   | Quiescent cfg r0 ino0 steps =>
@@ -204,16 +219,9 @@ Definition check (c : c17case) : N :=
       if pf then (if negb mm && wl then 11 else 3)
       else if mm then 1 else 0
   | Racing hist final v lasterr dup ok =>
-      let conv :=
-        match final with
-        | Content c =>
-            match decode c with
-            | Some x => optN_eqb v (Some x)
-            | None => lasterr && match v with Some x => x <? 100 | None => false end
-            end
-        | _ => match v with Some x => x <? 100 | None => false end
-        end in
-      if negb dup && ok && conv then 0 else 3
+      if negb dup && ok && converged final v lasterr then 0 else 3
+  | Window points dup ok =>
+      if negb dup && ok && forallb (fun p => let '(r, v, e) := p in converged r v e) points then 0 else 3
   end.
 
 Fixpoint run_from (i : N) (cs : list c17case) : list (N * N) :=
